@@ -112,6 +112,47 @@ func main() {
 			}
 			mu.Unlock()
 		})
+		// large bodies: whatever is left must be drained, however much it is (internal windows and caps
+		// of the drain are size boundaries); short histories, environment deviations bounded by 1 up to
+		// 32 KiB and default answers only above
+		bigSeqs := enum.Seqs(len(drainOps), 1, 2)
+		bigLens := []int{4096, 32768, 32769, 65537, 262144, 262145, 1<<20 + 1, 10<<20 + 1}
+		if !r.Thorough() {
+			bigLens = []int{32769, 262145, 1<<20 + 1, 10<<20 + 1}
+		}
+		var bigJobs []job
+		for _, l := range bigLens {
+			for _, t := range []string{"EOF", "ERR"} {
+				bigJobs = append(bigJobs, job{l, t})
+			}
+		}
+		enum.Parallel(len(bigJobs)*len(bigSeqs), r.OutOfTime, func(i int) {
+			j, ops := bigJobs[i/len(bigSeqs)], bigSeqs[i%len(bigSeqs)]
+			bound := 0
+			if j.l <= 32769 {
+				bound = 1
+			}
+			local := map[string]bool{}
+			var n int64
+			choice.Explore(bound, nil, func(c *choice.Chooser) {
+				dc := DrainCase{"drain", j.l, j.term, ops, nil}
+				cl, what, key := runDrain(dc, c)
+				n++
+				if cl != "" {
+					dc.Choices = c.Choices()
+					r.Fail(cl, what, dc)
+				} else {
+					local[key] = true
+				}
+			})
+			r.Eval(n)
+			mu.Lock()
+			for k := range local {
+				states[k] = true
+			}
+			mu.Unlock()
+		})
+		r.Set("drain_large_bodies", map[string]any{"lengths": bigLens, "histories_per_length": 2 * len(bigSeqs)})
 		r.Nontrivial(int64(len(states)))
 		r.Outcome("drain:distinct-end-states", int64(len(states)))
 		r.Set("drain_histories", len(jobs)*len(seqs))
